@@ -354,6 +354,7 @@ type c18WB struct {
 }
 
 type c18Data struct {
+	sameMs      int      // two-step save around a reload: 1 armed, 2 first step done, 3 both done
 	FinalKeys   []string `json:"final_keys,omitempty"`
 	NoFinalNL   bool     `json:"no_final_newline,omitempty"`
 	Overlaps    int      `json:"external_edits_inside_writebacks,omitempty"`
@@ -404,6 +405,21 @@ func c18BuiltinDefaults(d *c18Data) {
 	}
 }
 
+// externalEdit replaces the file with a freshly generated next version (raw: usable from hooks).
+//
+//go:norace
+func (d *c18Data) externalEdit(fault string) {
+	next := c18GenFile(d.cur)
+	d.cur = next
+	d.Versions = append(d.Versions, next)
+	d.noteVersion(next)
+	d.EditMs = append(d.EditMs, simrt.NowNs()/1e6)
+	d.EditStamps = append(d.EditStamps, simrt.Stamp())
+	d.disk.ReplaceRaw(d.path, []byte(c18Render(next)))
+	simrt.Fault(fault)
+	d.lastChange = simrt.Elapsed()
+}
+
 //go:norace
 func (d *c18Data) addGet(g *c18Get) { d.Gets = append(d.Gets, g) }
 
@@ -419,6 +435,13 @@ type c18Observer struct {
 }
 
 func (o *c18Observer) ApplyConfig(conf config.Config) {
+	if d := o.d; !o.child && d.sameMs == 2 {
+		// second step of the two-step save: the version written just before the reload looked
+		// at the file has been loaded; the next one follows within the same millisecond (when
+		// the reload itself took less than that)
+		d.sameMs = 3
+		d.externalEdit("edit_right_after_reload")
+	}
 	if o.registry != nil {
 		r := o.registry
 		o.registry = nil
@@ -617,6 +640,21 @@ func c18Body(rc *RunCtx) {
 			}
 			simrt.Note("external edit #" + strconv.Itoa(e+1))
 			d.lastChange = simrt.Elapsed()
+			if !doWB && d.sameMs == 0 && simrt.ChanceF(1, 6) {
+				// a save in two steps around the next reload: the first lands the instant before
+				// the reload looks at the file, the second right after it has loaded the first
+				d.sameMs = 1
+				disk.OnStat = func(p string) {
+					if p == d.path && d.sameMs == 1 && d.inWB == nil {
+						d.sameMs = 2
+						d.externalEdit("edit_right_before_reload")
+					}
+				}
+				for w := 0; w < 80 && d.sameMs != 3; w++ {
+					simrt.Sleep(50 * time.Millisecond)
+				}
+				disk.OnStat = nil
+			}
 		}
 	})
 	tasks = append(tasks, editor)
